@@ -159,6 +159,13 @@ theorem tdiv_two (m : Int) : (0 ≤ m → Int.tdiv m 2 = m / 2) ∧ (m < 0 → I
     · omega
     · rw [hs]; omega
 
+/-- `ceil(total/first) ≤ per` when `total < per*first` -/
+theorem ceil_div_le {total first per : Nat} (hf : 0 < first) (h : total < per * first) :
+    (total + first - 1) / first ≤ per := by
+  apply Nat.le_of_lt_succ
+  rw [Nat.div_lt_iff_lt_mul hf, Nat.succ_mul]
+  omega
+
 /-! ### buildRoster -/
 
 theorem buildRoster_sublist (o : Options) (l : List Seg) (n : Nat) (v : Int) :
@@ -302,11 +309,59 @@ theorem pickBest_isSome_of_head {σ : Type} (o : Options) (score : List Seg → 
   have : (buildRoster o (e :: rest) 0 0).length > 0 := length_pos_iff.2 h
   simp [this]
 
+/-- the roster `pickBest` returns was built from a non-empty suffix of the eligibles -/
+theorem pickBest_from_suffix {σ : Type} (o : Options) (score : List Seg → σ) (lt : σ → σ → Bool)
+    (elig : List Seg) :
+    ∀ (l : List Seg) (best : Option (List Seg × σ)), l <:+ elig →
+      (∀ r s, best = some (r, s) → ∃ suf, suf <:+ elig ∧ suf ≠ [] ∧ r = buildRoster o suf 0 0) →
+      ∀ r s, pickBest o score lt l best = some (r, s) →
+        ∃ suf, suf <:+ elig ∧ suf ≠ [] ∧ r = buildRoster o suf 0 0 := by
+  intro l
+  induction l with
+  | nil => intro best _ hb r s h; simp only [pickBest] at h; exact hb r s h
+  | cons e rest ih =>
+    intro best hs hb r s h
+    simp only [pickBest] at h
+    have hs' : rest <:+ elig := (suffix_cons e rest).trans hs
+    refine ih _ hs' ?_ r s h
+    intro r' s' hbest
+    have hg : ∃ suf, suf <:+ elig ∧ suf ≠ [] ∧ buildRoster o (e :: rest) 0 0 = buildRoster o suf 0 0 :=
+      ⟨e :: rest, hs, cons_ne_nil _ _, rfl⟩
+    split at hbest
+    · split at hbest
+      · cases hbest; exact hg
+      · rename_i b bs
+        split at hbest
+        · cases hbest; exact hg
+        · cases hbest; exact hb _ _ rfl
+    · exact hb r' s' hbest
+
 /-! ### the budget loop -/
 
-theorem planLoop_spec {σ : Type} (o : Options) (budget : Int) (score : List Seg → σ) (lt : σ → σ → Bool) :
+theorem planLoop_good {σ : Type} (o : Options) (budget : Int) (score : List Seg → σ) (lt : σ → σ → Bool) :
+    ∀ (fuel : Nat) (elig : List Seg) (n : Nat),
+      ∀ t ∈ planLoop o budget score lt fuel elig n, GoodRoster o elig t := by
+  intro fuel
+  induction fuel with
+  | zero => intro elig n; simp [planLoop]
+  | succ fuel ih =>
+    intro elig n
+    unfold planLoop
+    split
+    · split
+      · simp
+      · rename_i r s hpb
+        have hg : GoodRoster o elig r :=
+          pickBest_good o score lt elig elig none (suffix_refl _) (by intro _ _ h; cases h) r s hpb
+        intro t ht
+        rcases mem_cons.1 ht with rfl | ht
+        · exact hg
+        · have g := ih (removeSegments elig r) (n + 1) t ht
+          exact ⟨g.ne, g.sub.trans (removeSegments_sublist _ _), g.live, g.len⟩
+    · simp
+
+theorem planLoop_nodup {σ : Type} (o : Options) (budget : Int) (score : List Seg → σ) (lt : σ → σ → Bool) :
     ∀ (fuel : Nat) (elig : List Seg) (n : Nat), elig.Nodup →
-      (∀ t ∈ planLoop o budget score lt fuel elig n, GoodRoster o elig t) ∧
       (planLoop o budget score lt fuel elig n).flatten.Nodup := by
   intro fuel
   induction fuel with
@@ -321,20 +376,13 @@ theorem planLoop_spec {σ : Type} (o : Options) (budget : Int) (score : List Seg
         have hg : GoodRoster o elig r :=
           pickBest_good o score lt elig elig none (suffix_refl _) (by intro _ _ h; cases h) r s hpb
         have hnd' : (removeSegments elig r).Nodup := hnd.sublist (removeSegments_sublist _ _)
-        obtain ⟨ih1, ih2⟩ := ih (removeSegments elig r) (n + 1) hnd'
-        constructor
-        · intro t ht
-          rcases mem_cons.1 ht with rfl | ht
-          · exact hg
-          · have g := ih1 t ht
-            exact ⟨g.ne, g.sub.trans (removeSegments_sublist _ _), g.live, g.len⟩
-        · rw [flatten_cons, nodup_append]
-          refine ⟨hg.sub.nodup hnd, ih2, ?_⟩
-          intro a ha b hb hab
-          subst hab
-          obtain ⟨t, ht, hat⟩ := mem_flatten.1 hb
-          have := (ih1 t ht).sub.subset hat
-          exact (mem_removeSegments.1 this).2 ha
+        rw [flatten_cons, nodup_append]
+        refine ⟨hg.sub.nodup hnd, ih _ _ hnd', ?_⟩
+        intro a ha b hb hab
+        subst hab
+        obtain ⟨t, ht, hat⟩ := mem_flatten.1 hb
+        have := (planLoop_good o budget score lt fuel _ _ t ht).sub.subset hat
+        exact (mem_removeSegments.1 this).2 ha
     · simp
 
 /-- `plan_terminates`, general form: any two amounts of fuel that are at least the number of eligibles
